@@ -11,6 +11,7 @@ import Driver.ExprJson
 import Driver.Pipeline
 import Driver.Proto2
 import Driver.Value
+import Driver.Query
 
 open Driver
 
@@ -18,7 +19,7 @@ def dispatch (line : String) : String :=
   match (line.splitOn " ").filter (· ≠ "") with
   | [] => "bad-op"
   | cmd :: args =>
-    let handlers : List (String → Option (P String)) := [cmdPre, cmdContent, cmdFormat, cmdExprJson, cmdPipeline, cmdProto2, cmdValue]
+    let handlers : List (String → Option (P String)) := [cmdPre, cmdContent, cmdFormat, cmdExprJson, cmdPipeline, cmdProto2, cmdValue, cmdQuery]
     match handlers.findSome? (fun h => h cmd) with
     | none => "bad-op"
     | some p => match run p args with
